@@ -575,7 +575,7 @@ rt5_publish_group!(rt5_publish_g3, |p| {
     p.properties.response_topic = vh::any_opt_str::<1>();
 }, 1, p.properties.correlation_data.is_some() && p.properties.content_type.is_some() && p.properties.response_topic.is_some());
 //@ props: C01 C09
-//@ tier: quick
+//@ tier: thorough
 //@ stubs: yes
 //@ functions: EncodeLtd for PublishProperties, Encode for UserProperties, var_int_len, write_variable_length, parse_publish_properties
 //@ bounds: group 4: 0..=1 user property (0..=1-byte strings), 0..=2 subscription identifiers over 1..=268435455; QoS 0; payload 0..=1 byte
